@@ -1,6 +1,6 @@
 SPECIFICATION MCSpec
 CONSTANTS MaxIn = 1  MaxOps = 2  MidRunChunks = TRUE  TinyInput = TRUE  Bugs = {}
- Encs = {"stream", "mt", "raw", "block"}  Grants = {"one"}  Checks = {"crc", "none"}  BSizes = {0, 1}
+ Encs = {"stream", "mt", "raw", "block"}  Grants = {"one"}  Checks = {"crc"}  BSizes = {0, 1}
 VIEW MCView
 INVARIANTS TypeOK NotBad DecodableLeGiven NoEmptyBlock SeqAgrees
 PROPERTY Contract
